@@ -54,6 +54,10 @@
 
 
 
+#include <xalanc/XalanDOM/XalanNamedNodeMap.hpp>
+
+
+
 #include "Constants.hpp"
 #include "ElemApplyTemplates.hpp"
 #include "ElemAttributeSet.hpp"
@@ -919,6 +923,33 @@ StylesheetRoot::internalShouldStripSourceNode(const XalanText&  textNode) const
 
     if (parent->getNodeType() == XalanNode::ELEMENT_NODE)
     {
+        // A whitespace text node is preserved if an ancestor element
+        // has an xml:space attribute with a value of preserve, and no
+        // closer ancestor element has xml:space with a value of default.
+        for (const XalanNode* theAncestor = parent;
+                theAncestor != 0 && theAncestor->getNodeType() == XalanNode::ELEMENT_NODE;
+                    theAncestor = theAncestor->getParentNode())
+        {
+            const XalanNamedNodeMap* const  theAttributes = theAncestor->getAttributes();
+
+            const XalanNode* const  theSpaceAttribute =
+                theAttributes == 0 ? 0 : theAttributes->getNamedItem(Constants::ATTRNAME_XMLSPACE);
+
+            if (theSpaceAttribute != 0)
+            {
+                const XalanDOMString&   theValue = theSpaceAttribute->getNodeValue();
+
+                if (equals(theValue, Constants::ATTRVAL_PRESERVE) == true)
+                {
+                    return false;
+                }
+                else if (equals(theValue, Constants::ATTRVAL_DEFAULT) == true)
+                {
+                    break;
+                }
+            }
+        }
+
         const XalanElement* const   theElement =
                 static_cast<const XalanElement*>(parent);
 
